@@ -15,7 +15,6 @@
 -/
 import JRV.Model.JsonClass
 import JRV.Lemmas.JsonClass
-import JRV.Generated
 
 set_option linter.unusedSimpArgs false
 set_option linter.unusedVariables false
@@ -76,6 +75,23 @@ mutual
     | (k, v) :: xs => k.isStr && strKeys v && strKeysKVs xs
 end
 
+mutual
+  /-- Every dict key, at every depth, is a primitive (`None`, a bool, a number or a string). -/
+  def primKeys : PyVal → Bool
+    | .list xs => primKeysList xs
+    | .tuple xs => primKeysList xs
+    | .set xs => primKeysList xs
+    | .frozenset xs => primKeysList xs
+    | .dict kvs => primKeysKVs kvs
+    | _ => true
+  def primKeysList : List PyVal → Bool
+    | [] => true
+    | x :: xs => primKeys x && primKeysList xs
+  def primKeysKVs : List (PyVal × PyVal) → Bool
+    | [] => true
+    | (k, v) :: xs => k.isPrimitive && primKeys v && primKeysKVs xs
+end
+
 private theorem lookupStr_none_of_plainKVs_keys {kvs ys : List (PyVal × PyVal)}
     (hk : ys.map (·.1) = kvs.map (·.1)) (hp : ∀ k ∈ kvs.map (·.1), isJcKey k = false) :
     lookupStr jcKey ys = Option.none := by
@@ -109,7 +125,7 @@ private theorem plainKVs_keys {kvs : List (PyVal × PyVal)} (h : plainKVs kvs = 
 /-- What the induction proves about the dump `d` of a plain value `v`. -/
 private def Good (W : World) (cl : List (String × String)) (v d : PyVal) : Prop :=
   jsonNodes d = true ∧ (load W cl d).res = .ok (normalise v) ∧ (load W cl d).log = [] ∧ (load W cl d).arg = d ∧
-  (strKeys v = true → isJson d = true)
+  (strKeys v = true → isJson d = true) ∧ (primKeys v = true → primKeys d = true)
 
 section core
 variable (X : DumpCtx) (sm ia : String) (ig : List PyVal) (W : World) (cl : List (String × String))
@@ -118,57 +134,59 @@ include hH
 
 private theorem iter_case (xs : List PyVal) (v : PyVal)
     (hv : dump X sm ia ig v = (do let ys ← dumpList X sm ia ig xs; pure (.list ys)))
-    (hn : normalise v = .list (normaliseList xs)) (hs : strKeys v = strKeysList xs)
+    (hn : normalise v = .list (normaliseList xs)) (hs : strKeys v = strKeysList xs) (hp : primKeys v = primKeysList xs)
     (ih : ∃ ys, dumpList X sm ia ig xs = .ok ys ∧ jsonNodesList ys = true ∧
       (loadList W cl ys).res = .ok (normaliseList xs) ∧ (loadList W cl ys).log = [] ∧ (loadList W cl ys).args = ys ∧
-      (strKeysList xs = true → isJsonList ys = true)) :
+      (strKeysList xs = true → isJsonList ys = true) ∧ (primKeysList xs = true → primKeysList ys = true)) :
     ∃ d, dump X sm ia ig v = .ok d ∧ Good W cl v d := by
-  obtain ⟨ys, h1, h2, h3, h4, h5, h6⟩ := ih
+  obtain ⟨ys, h1, h2, h3, h4, h5, h6, h7⟩ := ih
   refine ⟨.list ys, ?_, ?_⟩
   · rw [hv, h1]; rfl
-  · refine ⟨by simpa [jsonNodes] using h2, ?_, ?_, ?_, ?_⟩
+  · refine ⟨by simpa [jsonNodes] using h2, ?_, ?_, ?_, ?_, ?_⟩
     · simp [load, h3, hn, Except.map]
     · simp [load, h4]
     · simp [load, h5]
     · intro h; rw [hs] at h; simpa [isJson] using h6 h
+    · intro h; rw [hp] at h; simpa [primKeys] using h7 h
 
 mutual
   private theorem core : ∀ (v : PyVal), plain v = true → ∃ d, dump X sm ia ig v = .ok d ∧ Good W cl v d
-    | .none, _ => ⟨.none, by simp [dump, handlerFor_none hH, pure, Except.pure], by simp [Good, jsonNodes, load, normalise, isJson]⟩
-    | .bool b, _ => ⟨.bool b, by simp [dump, handlerFor_none hH, pure, Except.pure], by simp [Good, jsonNodes, load, normalise, isJson]⟩
-    | .int i, _ => ⟨.int i, by simp [dump, handlerFor_none hH, pure, Except.pure], by simp [Good, jsonNodes, load, normalise, isJson]⟩
-    | .float f, _ => ⟨.float f, by simp [dump, handlerFor_none hH, pure, Except.pure], by simp [Good, jsonNodes, load, normalise, isJson]⟩
-    | .str s, _ => ⟨.str s, by simp [dump, handlerFor_none hH, pure, Except.pure], by simp [Good, jsonNodes, load, normalise, isJson]⟩
+    | .none, _ => ⟨.none, by simp [dump, handlerFor_none hH, pure, Except.pure], by simp [Good, jsonNodes, load, normalise, isJson, primKeys]⟩
+    | .bool b, _ => ⟨.bool b, by simp [dump, handlerFor_none hH, pure, Except.pure], by simp [Good, jsonNodes, load, normalise, isJson, primKeys]⟩
+    | .int i, _ => ⟨.int i, by simp [dump, handlerFor_none hH, pure, Except.pure], by simp [Good, jsonNodes, load, normalise, isJson, primKeys]⟩
+    | .float f, _ => ⟨.float f, by simp [dump, handlerFor_none hH, pure, Except.pure], by simp [Good, jsonNodes, load, normalise, isJson, primKeys]⟩
+    | .str s, _ => ⟨.str s, by simp [dump, handlerFor_none hH, pure, Except.pure], by simp [Good, jsonNodes, load, normalise, isJson, primKeys]⟩
     | .list xs, h => iter_case X sm ia ig W cl hH xs (.list xs) (by simp [dump, handlerFor_none hH]) (by simp [normalise])
-        (by simp [strKeys]) (coreList xs (by simpa [plain] using h))
+        (by simp [strKeys]) (by simp [primKeys]) (coreList xs (by simpa [plain] using h))
     | .tuple xs, h => iter_case X sm ia ig W cl hH xs (.tuple xs) (by simp [dump, handlerFor_none hH]) (by simp [normalise])
-        (by simp [strKeys]) (coreList xs (by simpa [plain] using h))
+        (by simp [strKeys]) (by simp [primKeys]) (coreList xs (by simpa [plain] using h))
     | .set xs, h => iter_case X sm ia ig W cl hH xs (.set xs) (by simp [dump, handlerFor_none hH]) (by simp [normalise])
-        (by simp [strKeys]) (coreList xs (by simpa [plain] using h))
+        (by simp [strKeys]) (by simp [primKeys]) (coreList xs (by simpa [plain] using h))
     | .frozenset xs, h => iter_case X sm ia ig W cl hH xs (.frozenset xs) (by simp [dump, handlerFor_none hH]) (by simp [normalise])
-        (by simp [strKeys]) (coreList xs (by simpa [plain] using h))
+        (by simp [strKeys]) (by simp [primKeys]) (coreList xs (by simpa [plain] using h))
     | .dict kvs, h => by
       have hp : plainKVs kvs = true := by simpa [plain] using h
-      obtain ⟨ys, h1, h2, h3, h4, h5, h6, h7⟩ := coreKVs kvs hp
+      obtain ⟨ys, h1, h2, h3, h4, h5, h6, h7, h8⟩ := coreKVs kvs hp
       have hno : lookupStr jcKey ys = Option.none := lookupStr_none_of_plainKVs_keys h7 (plainKVs_keys hp)
       refine ⟨.dict ys, ?_, ?_⟩
       · simp [dump, handlerFor_none hH, h1, bind, Except.bind, pure, Except.pure]
-      · refine ⟨by simpa [jsonNodes] using h2, ?_, ?_, ?_, ?_⟩
+      · refine ⟨by simpa [jsonNodes] using h2, ?_, ?_, ?_, ?_, ?_⟩
         · simp [load, hno, h3, normalise, Except.map]
         · simp [load, hno, h4]
         · simp [load, hno, h5]
         · intro hs; simpa [isJson] using h6 (by simpa [strKeys] using hs)
+        · intro hs; simpa [primKeys] using h8 (by simpa [primKeys] using hs)
     | .obj _ _, h => by simp [plain] at h
   private theorem coreList : ∀ (xs : List PyVal), plainList xs = true →
       ∃ ys, dumpList X sm ia ig xs = .ok ys ∧ jsonNodesList ys = true ∧
         (loadList W cl ys).res = .ok (normaliseList xs) ∧ (loadList W cl ys).log = [] ∧ (loadList W cl ys).args = ys ∧
-        (strKeysList xs = true → isJsonList ys = true)
-    | [], _ => ⟨[], by simp [dumpList, pure, Except.pure], by simp [jsonNodesList, loadList, normaliseList, isJsonList]⟩
+        (strKeysList xs = true → isJsonList ys = true) ∧ (primKeysList xs = true → primKeysList ys = true)
+    | [], _ => ⟨[], by simp [dumpList, pure, Except.pure], by simp [jsonNodesList, loadList, normaliseList, isJsonList, primKeysList]⟩
     | x :: xs, h => by
       simp only [plainList, Bool.and_eq_true] at h
-      obtain ⟨d, hd, g1, g2, g3, g4, g5⟩ := core x h.1
-      obtain ⟨ys, h1, h2, h3, h4, h5, h6⟩ := coreList xs h.2
-      refine ⟨d :: ys, ?_, ?_, ?_, ?_, ?_, ?_⟩
+      obtain ⟨d, hd, g1, g2, g3, g4, g5, g6⟩ := core x h.1
+      obtain ⟨ys, h1, h2, h3, h4, h5, h6, h7⟩ := coreList xs h.2
+      refine ⟨d :: ys, ?_, ?_, ?_, ?_, ?_, ?_, ?_⟩
       · simp [dumpList, hd, h1, bind, Except.bind, pure, Except.pure]
       · simp [jsonNodesList, g1, h2]
       · simp [loadList, g2, h3, normaliseList, Except.map]
@@ -177,16 +195,20 @@ mutual
       · intro hs
         simp only [strKeysList, Bool.and_eq_true] at hs
         simp [isJsonList, g5 hs.1, h6 hs.2]
+      · intro hs
+        simp only [primKeysList, Bool.and_eq_true] at hs
+        simp [primKeysList, g6 hs.1, h7 hs.2]
   private theorem coreKVs : ∀ (kvs : List (PyVal × PyVal)), plainKVs kvs = true →
       ∃ ys, dumpKVs X sm ia ig kvs = .ok ys ∧ jsonNodesKVs ys = true ∧
         (loadKVs W cl ys).res = .ok (normaliseKVs kvs) ∧ (loadKVs W cl ys).log = [] ∧ (loadKVs W cl ys).args = ys ∧
-        (strKeysKVs kvs = true → isJsonKVs ys = true) ∧ ys.map (·.1) = kvs.map (·.1)
-    | [], _ => ⟨[], by simp [dumpKVs, pure, Except.pure], by simp [jsonNodesKVs, loadKVs, normaliseKVs, isJsonKVs]⟩
+        (strKeysKVs kvs = true → isJsonKVs ys = true) ∧ ys.map (·.1) = kvs.map (·.1) ∧
+        (primKeysKVs kvs = true → primKeysKVs ys = true)
+    | [], _ => ⟨[], by simp [dumpKVs, pure, Except.pure], by simp [jsonNodesKVs, loadKVs, normaliseKVs, isJsonKVs, primKeysKVs]⟩
     | (k, x) :: xs, h => by
       simp only [plainKVs, Bool.and_eq_true] at h
-      obtain ⟨d, hd, g1, g2, g3, g4, g5⟩ := core x h.1.2
-      obtain ⟨ys, h1, h2, h3, h4, h5, h6, h7⟩ := coreKVs xs h.2
-      refine ⟨(k, d) :: ys, ?_, ?_, ?_, ?_, ?_, ?_, ?_⟩
+      obtain ⟨d, hd, g1, g2, g3, g4, g5, g6⟩ := core x h.1.2
+      obtain ⟨ys, h1, h2, h3, h4, h5, h6, h7, h8⟩ := coreKVs xs h.2
+      refine ⟨(k, d) :: ys, ?_, ?_, ?_, ?_, ?_, ?_, ?_, ?_⟩
       · simp [dumpKVs, hd, h1, bind, Except.bind, pure, Except.pure]
       · simp [jsonNodesKVs, g1, h2]
       · simp [loadKVs, g2, h3, normaliseKVs, Except.map]
@@ -196,6 +218,9 @@ mutual
         simp only [strKeysKVs, Bool.and_eq_true] at hs
         simp [isJsonKVs, hs.1.1, g5 hs.1.2, h6 hs.2]
       · simp [h7]
+      · intro hs
+        simp only [primKeysKVs, Bool.and_eq_true] at hs
+        simp [primKeysKVs, hs.1.1, g6 hs.1.2, h8 hs.2]
 end
 
 end core
@@ -210,6 +235,15 @@ theorem C15_shape (X : DumpCtx) (sm ia : Option String) (ig : Option (List PyVal
   obtain ⟨d, h1, h2, _⟩ := core X _ _ _ ⟨[], []⟩ [] hH v hp
   exact ⟨d, h1, h2⟩
 
+/-- … dict keys included: when every dict key of the value (at every depth) is a primitive — a string, a number, a
+    bool or `None` — so is every dict key of the dump (`dump` keeps keys as they are; a key that is itself a tuple
+    or a frozenset has no JSON form and stays what it is). -/
+theorem C15_shape_keys (X : DumpCtx) (sm ia : Option String) (ig : Option (List PyVal)) (v : PyVal)
+    (hH : noHandlers X.cfg = true) (hp : plain v = true) (hk : primKeys v = true) :
+    ∃ d, dumpTop X sm ia ig v = .ok d ∧ jsonNodes d = true ∧ primKeys d = true := by
+  obtain ⟨d, h1, h2, _, _, _, _, h7⟩ := core X _ _ _ ⟨[], []⟩ [] hH v hp
+  exact ⟨d, h1, h2, h7 hk⟩
+
 /-- `load(dump(v))` is `v` up to container normalisation (tuples, sets, frozensets become lists, dict keys
     and every primitive leaf are untouched — `normalise` is the identity on primitives, see
     `C15_primitive_exact`), for every class table and importable world; nothing is imported or constructed,
@@ -218,7 +252,7 @@ theorem C15_roundtrip (X : DumpCtx) (sm ia : Option String) (ig : Option (List P
     (cl : List (String × String)) (v : PyVal) (hH : noHandlers X.cfg = true) (hp : plain v = true) :
     ∃ d, dumpTop X sm ia ig v = .ok d ∧ (load W cl d).res = .ok (normalise v) ∧ (load W cl d).log = [] ∧
       (load W cl d).arg = d := by
-  obtain ⟨d, h1, _, h3, h4, h5, _⟩ := core X _ _ _ W cl hH v hp
+  obtain ⟨d, h1, _, h3, h4, h5, _, _⟩ := core X _ _ _ W cl hH v hp
   exact ⟨d, h1, h3, h4, h5⟩
 
 /-- Exact type and value of every primitive: `bool` stays `bool`, `int` stays `int`, … through `dump`,
@@ -232,13 +266,15 @@ theorem C15_primitive_exact (X : DumpCtx) (sm ia : Option String) (ig : Option (
 theorem C15_jsonable (X : DumpCtx) (sm ia : Option String) (ig : Option (List PyVal)) (v : PyVal)
     (hH : noHandlers X.cfg = true) (hp : plain v = true) (hk : strKeys v = true) :
     ∃ d, dumpTop X sm ia ig v = .ok d ∧ isJson d = true := by
-  obtain ⟨d, h1, _, _, _, _, h6⟩ := core X _ _ _ ⟨[], []⟩ [] hH v hp
+  obtain ⟨d, h1, _, _, _, _, h6, _⟩ := core X _ _ _ ⟨[], []⟩ [] hH v hp
   exact ⟨d, h1, h6 hk⟩
 
 /-- Non-vacuity: a tuple holding a set, a dict with a non-string key and a frozenset of extreme leaves. -/
 example : plain (.tuple [.set [.bool false, .int 0], .dict [(.int 1, .list [.none]), (.str "k", .frozenset [.str ""])]]) = true := by
   decide
 example : strKeys (.tuple [.set [.bool false], .dict [(.str "k", .frozenset [.str ""])]]) = true := by decide
+example : primKeys (.tuple [.dict [(.int 1, .list [.none]), (.none, .dict [(.bool false, .str "")])]]) = true ∧
+    primKeys (.dict [(.tuple [.int 1], .none)]) = false := by decide
 example : noHandlers {} = true := by decide
 
 /- ---------- purity ---------- -/
@@ -448,21 +484,6 @@ example : (load ⟨exEnv, []⟩ [] exArg).arg =
   decide +kernel
 example : jcOnce exArg = true := by decide +kernel
 example : (load ⟨exEnv, []⟩ [] exArg).log = [.imp "m", .construct "S" (.list []), .setattr "S" "a"] := by rfl
-
-/-- `dump` writes to no object it is given.  The model of `dump` is a function of the value *because* the
-    source contains no in-place write whose root is a parameter or anything reachable from one: every
-    subscript/attribute store, augmented assignment, delete and mutating method call of `jsonclass.dump` is
-    rooted at a local bound to a fresh container (`return_obj`, `fields`, `attrs` today).  This is a fact about
-    the source, re-extracted on every run; the semantic side — deep snapshots of the argument, of the `ignore`
-    list and of the objects' ignore lists before and after — is the monitor of the check. -/
-theorem C15_pure_dump : Generated.dumpNonFreshWrites = some [] := by decide
-
-theorem C15_gen_dumpNonFreshWrites : Generated.dumpNonFreshWrites = some dumpNonFreshWrites := by decide
-
-theorem C15_gen_loadRestores : Generated.loadRestoresInFinally = some restoresInFinally := by decide
-
-theorem C15_gen_typeTables :
-    Generated.typeTables = some (iterableTypeNames, primitiveTypeNames, supportedTypeNames) := by decide
 
 /-- The model's `isinstance` tests are the extracted tables (on the built-in kinds of the universe). -/
 theorem C15_typeTables_model (v : PyVal) (hv : ∀ c fs, v ≠ .obj c fs) :
